@@ -68,6 +68,8 @@ def build(cfg):
             sv._data["ccsds_user_defined"] = {f"FIELD{i}": f"value {i}" for i in range(cfg["nud"])}
         if cfg["kind"] == "statevector":
             sv = sv.as_statevector()
+        if cfg.get("form", "cartesian") != "cartesian":
+            sv.form = cfg["form"]             # the object is held in another element form when it is written
         return sv
     if t == "oem":
         ephs = []
@@ -80,6 +82,9 @@ def build(cfg):
                     p.cov = Cov(p, COV * (k + 1), cf)
                 pts.append(p)
             method, order = ("linear", None) if cfg["interp"] == "linear" else ("lagrange", int(cfg["interp"][8:]))
+            if cfg.get("form", "cartesian") != "cartesian":
+                for p in pts:
+                    p.form = cfg["form"]
             eph = Ephem(pts, method=method, order=order)
             eph.name, eph.cospar_id = "SAT-1", "2016-025A"      # an ephemeris carries its name / identifier itself (as the reader sets them)
             ephs.append(eph)
